@@ -328,3 +328,55 @@ func VX_C17_Sequence(args []int) {
 	}
 	vxCover("c17.sequence")
 }
+
+func init() { vxRegister("VX_C17_TypedArgMismatch", VX_C17_TypedArgMismatch) }
+
+func VxTypedSecret(ctx erpc.CallCtx, arg *int32) ([]byte, *erpc.Status) {
+	return []byte("ok"), nil
+}
+
+// VX_C17_TypedArgMismatch: a secure call whose decrypted argument does not
+// fit the typed handler's parameter is answered with an error; the reply frame
+// (status, metadata, body) must not carry the argument in clear.
+// args: nSecret (symbolic letters inside the argument)
+func VX_C17_TypedArgMismatch(args []int) {
+	cli := erpc.NewPeer(erpc.PeerConfig{DefaultBodyCodec: "protobuf"}, NewPlugin(10001, vxKeyA))
+	srv := erpc.NewPeer(erpc.PeerConfig{DefaultBodyCodec: "protobuf"}, NewPlugin(10002, vxKeyA))
+	srv.RouteCallFunc(VxTypedSecret)
+	secret := vxString("s", args[0])
+	for k := 0; k < len(secret); k++ {
+		vxAssume(secret[k] >= 'a' && secret[k] <= 'z')
+	}
+	secret = "TOPSECRET" + secret
+	arg := []byte(secret) // plain bytes, while the handler takes a number
+	cconn := newVxConn("cli:1", "srv:1")
+	sconn := newVxConn("srv:1", "cli:1")
+	cs, st := cli.ServeConn(cconn)
+	vxAssume(st.OK())
+	_, st = srv.ServeConn(sconn)
+	vxAssume(st.OK())
+	cmd := cs.AsyncCall("/vx_typed_secret", arg, new([]byte), make(chan erpc.CallCmd, 1), WithSecureMeta())
+	vxAssert(cconn.nWrites() == 1, "call written")
+	if cconn.nWrites() != 1 {
+		return
+	}
+	vxAssert(!vxMentions(cconn.writes[0], []byte(secret)), "argument of a secure call does not appear in clear on the wire")
+	sconn.feed(cconn.writes[0])
+	vxWaitIdle()
+	vxAssert(sconn.nWrites() == 1, "[C03] server answered once")
+	if sconn.nWrites() != 1 {
+		return
+	}
+	rep := sconn.writes[0]
+	m, err := vxParse(rep)
+	vxAssert(err == nil && !m.StatusOK(), "[C04] an argument that does not fit is answered with an error status")
+	vxAssert(!vxMentions(rep, []byte(secret)), "the error reply to a secure call does not carry the argument in clear")
+	cconn.feed(rep)
+	vxWaitIdle()
+	select {
+	case <-cmd.Done():
+	default:
+		vxAssert(false, "[C02] call completed")
+	}
+	vxCover("c17.typed-mismatch")
+}
